@@ -39,7 +39,7 @@ func runProgenTool(c *Ctx) {
 		p := GenProgram(rng, prof)
 		cen.Add(p)
 		dir := filepath.Join(c.Work, fmt.Sprintf("main_%04d", i))
-		MustWrite(filepath.Join(dir, "x.fo"), ToFolangOpts(p, PrintOpts{OwnPkgInfo: prof.Tiny}))
+		MustWrite(filepath.Join(dir, "x.fo"), ToFolangOpts(p, PrintOpts{OwnPkgInfo: prof.Tiny, Tiny: prof.Tiny}))
 		MustWrite(filepath.Join(dir, "x.sexp"), p.ToSexp()+"\n")
 		out := p.RawOut
 		if p.RawFo == "" {
